@@ -1,13 +1,16 @@
 import LettreVerif.Model.Builder
+import LettreVerif.Proofs.Builder
 /-!
 # C01 — Built message's envelope carries exactly the sender and recipients given
 
 `Builder.run` models the builder as the code has it (a *text* store: every call re-parses
 the header's Display text); `Builder.specRun` is the typed store the property talks about.
-The refinement `run e prog = specRun prog` holds exactly when every mailbox list used
-round-trips through Display and the grammar (C17); it is checked, together with the spec
-itself against the real builder, by the correspondence check on every generated program.
-Proved here: what the specification demands, stated outright (decision logic).
+Proved here: the refinement `builder_refines_spec` — for every sequence of builder calls, the text store gives
+exactly what the typed store demands (same error, or same envelope and same Bcc decision; never a panic),
+provided the addresses involved survive Display followed by parsing (`EmailsRoundTrip`: the part of C17's
+mailbox round trip that concerns addresses; it is evaluated on every generated mailbox and list by the
+correspondence check, and it is exactly what failed for quoted local parts, address literals and NUL /
+CR / LF names before the `fix:` commits) — and what the specification demands, stated outright.
 -/
 namespace LV.C01
 open LV LV.Builder LV.Mailbox
@@ -86,6 +89,19 @@ theorem spec_calls_accumulate (t : Typed) (m : MBox) :
     (specStep t (.add .to m)).cc = t.cc ∧ (specStep t (.add .to m)).bcc = t.bcc ∧
     (specStep t (.add .replyTo m)).to = t.to := by
   simp [specStep]
+
+/-- **The builder refines the typed store.** `G` is any class of addresses that survive Display → parse in every list
+    and under every display name (`EmailsRoundTrip e G`). For every program whose mailboxes have addresses in `G`:
+    the builder as the code has it does not panic, fails exactly when the specification says so and with the same
+    error, and otherwise yields exactly the specified envelope (reverse path = Sender else the single From;
+    recipients = To, Cc, Bcc addresses in insertion order; an explicit envelope unchanged) and Bcc decision. -/
+theorem builder_refines_spec (e : Address.Env) (G : List Char → Prop) (hrt : EmailsRoundTrip e G) (prog : List Op)
+    (hg : ∀ op ∈ prog, GoodOp G op) : run e prog = conv (specRun prog) :=
+  run_refines e G hrt prog hg
+
+/-- Display of a mailbox or a mailbox list never fails (CR and LF of a name are written as quoted-pairs): the
+    builder cannot panic in `header.display()`. -/
+theorem display_total (l : List MBox) : ∃ t, showList l = some t := showList_some l
 
 /-- non-vacuity: the model of the code and the specification agree on a program with a quoted
     local part, an address literal and a name containing NUL, CR and LF (which the code dropped
